@@ -66,7 +66,7 @@ pub fn cases(ctx: &Ctx) -> Vec<WCase> {
     }
     // ---- random
     let mut r = Rng::new(ctx.seed ^ 0xC11);
-    for i in 0..ctx.n(2500, 100_000) {
+    for i in 0..ctx.n(10_000, 500_000) {
         let mut rr = r.fork(i as u64);
         let mut s = Scn::base(rr.next());
         s.peers = rr.pick(&[vec![vec![0], vec![1]], vec![vec![0, 1], vec![2]], vec![vec![0, 2], vec![1, 3]], vec![vec![0], vec![1], vec![2]]]);
